@@ -13,7 +13,8 @@ RULE = ("documents combining internal subsets with external general entities, pa
         "other entities, with file://, plain path, http:// and relative system identifiers x entry point {reply via "
         "__inject, reply via transport, RequestContext.process_reply, WSDL document, imported schema, cached "
         "document, Parser.parse, Element-level parse of a string} ; parsed under a sys.addaudithook recorder; "
-        "non-trivial = the document has at least one external reference; distinct = distinct (document, entry point)")
+        "non-trivial = the document has at least one external reference; distinct = distinct (document, entry point)"
+        ' ; plus: XML declarations in every spelling (standalone=no), replies on the HTTP-error path, imported documents served under well-known locations, content handed on as bytearray / memoryview, documents the store holds under http locations, a 5 MiB reply')
 ASSUMPTIONS = ["pyexpat / xml.sax.expatreader behave as documented for feature_external_ges (trusted, exercised here)",
                "interpreter audit events open / socket.* / urllib.Request see every file or network access"]
 PARTIAL = [{"theorem": "no_resolve_when_disabled", "missing": "about suds' configuration only; expat itself is runtime"}]
